@@ -30,6 +30,7 @@ try:
     t0 = time.time()
     chk = subprocess.run(["./check", prop, "--tier", tier], cwd="/verif", env=dict(os.environ, VERIF_REPO=W), capture_output=True, text=True)
     lines = [l for l in chk.stdout.splitlines() if l.startswith(("VIOLATION", "KNOWN", "UNDECIDED", "CHECKER")) or " exit=" in l]
+    lines.sort(key=lambda l: 0 if l.startswith("VIOLATION") else 1)      # violations first: only eight lines are kept
     out = f"/verif/seeded/{sid}"
     os.makedirs(out, exist_ok=True)
     for src, dst in ((diff, out + "/patch.diff"), (demo, out + "/" + os.path.basename(demo))):
